@@ -86,15 +86,38 @@ impl Tasks {
         }
     { unimplemented!() }
 }
-// slice::sort_unstable_by_key(|span| span.first().expect(..).height()): every span must be non-empty (the `expect`)
+// the spans as sequences
+pub open spec fn sp_view(r: Seq<Vec<ExtendedHeader>>) -> Seq<Seq<ExtendedHeader>> { Seq::new(r.len(), |i: int| r[i]@) }
+// `b` is a permutation of `a`: p maps positions of b to positions of a, q is its inverse
+pub open spec fn perm_pair(a: Seq<Seq<ExtendedHeader>>, b: Seq<Seq<ExtendedHeader>>, p: Seq<int>, q: Seq<int>) -> bool {
+    &&& a.len() == b.len() && p.len() == a.len() && q.len() == a.len()
+    &&& forall|i: int| 0 <= i < b.len() ==> 0 <= #[trigger] p[i] < a.len() && b[i] == a[p[i]] && q[p[i]] == i
+    &&& forall|j: int| 0 <= j < a.len() ==> 0 <= #[trigger] q[j] < b.len() && p[q[j]] == j
+}
+pub open spec fn sorted_by_first(b: Seq<Seq<ExtendedHeader>>) -> bool {
+    forall|i: int, j: int| 0 <= i < j < b.len() ==> (#[trigger] b[i])[0].h <= (#[trigger] b[j])[0].h
+}
+// slice::sort_unstable_by_key(|span| span.first().expect(..).height()) (A-std): a permutation of the input, ascending by
+// the key; every span must be non-empty (the `expect` in the key closure)
 #[verifier::external_body]
 pub fn vx_sort_spans_by_first_height(responses: &mut Vec<Vec<ExtendedHeader>>)
     requires forall|i: int| 0 <= i < old(responses)@.len() ==> (#[trigger] old(responses)@[i])@.len() > 0
-    ensures final(responses)@.len() == old(responses)@.len()
+    ensures
+        final(responses)@.len() == old(responses)@.len(),
+        sorted_by_first(sp_view(final(responses)@)),
+        exists|p: Seq<int>, q: Seq<int>| perm_pair(sp_view(old(responses)@), sp_view(final(responses)@), p, q),
 { unimplemented!() }
-// into_iter().flatten().collect()
+// concatenation of the spans in order
+pub open spec fn flat(b: Seq<Seq<ExtendedHeader>>) -> Seq<ExtendedHeader>
+    decreases b.len()
+{
+    if b.len() == 0 { Seq::empty() } else { flat(b.drop_last()) + b.last() }
+}
+// into_iter().flatten().collect() (A-std)
 #[verifier::external_body]
-pub fn vx_flatten(responses: Vec<Vec<ExtendedHeader>>) -> (r: Vec<ExtendedHeader>) { unimplemented!() }
+pub fn vx_flatten(responses: Vec<Vec<ExtendedHeader>>) -> (r: Vec<ExtendedHeader>)
+    ensures r@ == flat(sp_view(responses@))
+{ unimplemented!() }
 pub struct OpaqueFuture { pub height: u64, pub amount: u64 }
 impl OpaqueFuture {
     // FutureExt::boxed: the same future behind a Box
@@ -118,6 +141,296 @@ pub struct HeaderSession {
     pub batch_size: u64,
 }
 
+// ---------------------------------------------------------------------------
+// C26: the requested range [lo, hi] is at every moment partitioned into what is still to be fetched, the requests in
+// flight and the spans received: every height is counted exactly once (pointwise counting, no pairwise reasoning)
+// ---------------------------------------------------------------------------
+pub open spec fn covers(p: (u64, u64), x: int) -> bool { p.0 <= x < p.0 + p.1 }
+pub open spec fn cnt_out(s: Seq<(u64, u64)>, x: int) -> int
+    decreases s.len()
+{
+    if s.len() == 0 { 0 } else { cnt_out(s.drop_last(), x) + (if covers(s.last(), x) { 1int } else { 0int }) }
+}
+pub open spec fn span_ok(v: Seq<ExtendedHeader>) -> bool {
+    v.len() > 0 && v[0].h + v.len() - 1 <= u64::MAX && forall|i: int| 0 <= i < v.len() ==> (#[trigger] v[i]).h == v[0].h + i
+}
+pub open spec fn span_covers(v: Seq<ExtendedHeader>, x: int) -> bool { v.len() > 0 && v[0].h <= x < v[0].h + v.len() }
+pub open spec fn cnt_sp(s: Seq<Seq<ExtendedHeader>>, x: int) -> int
+    decreases s.len()
+{
+    if s.len() == 0 { 0 } else { cnt_sp(s.drop_last(), x) + (if span_covers(s.last(), x) { 1int } else { 0int }) }
+}
+pub open spec fn in_fetch(f: Option<BlockRange>, x: int) -> int { if f.is_some() && r_has(f.unwrap(), x) { 1 } else { 0 } }
+pub open spec fn in_range(lo: int, hi: int, x: int) -> int { if lo <= x <= hi { 1 } else { 0 } }
+
+#[verifier::opaque]
+pub open spec fn sess_inv(f: Option<BlockRange>, out: Seq<(u64, u64)>, sp: Seq<Seq<ExtendedHeader>>, lo: int, hi: int) -> bool {
+    &&& (f.is_some() ==> r_valid(f.unwrap()))
+    &&& all_req_ok(out)
+    &&& forall|i: int| 0 <= i < sp.len() ==> span_ok(#[trigger] sp[i])
+    &&& forall|x: int| in_fetch(f, x) + #[trigger] cnt_out(out, x) + cnt_sp(sp, x) == in_range(lo, hi, x)
+}
+
+pub proof fn lemma_cnt_out_push(s: Seq<(u64, u64)>, e: (u64, u64), x: int)
+    ensures cnt_out(s.push(e), x) == cnt_out(s, x) + (if covers(e, x) { 1int } else { 0int })
+{
+    assert(s.push(e).drop_last() =~= s);
+}
+pub proof fn lemma_cnt_out_remove(s: Seq<(u64, u64)>, k: int, x: int)
+    requires 0 <= k < s.len()
+    ensures cnt_out(s.remove(k), x) == cnt_out(s, x) - (if covers(s[k], x) { 1int } else { 0int })
+    decreases s.len()
+{
+    if k == s.len() - 1 {
+        assert(s.remove(k) =~= s.drop_last());
+    } else {
+        let t = s.drop_last();
+        lemma_cnt_out_remove(t, k, x);
+        assert(s.remove(k).drop_last() =~= t.remove(k));
+        assert(s.remove(k).last() == s.last());
+        assert(t[k] == s[k]);
+    }
+}
+pub proof fn lemma_cnt_sp_push(s: Seq<Seq<ExtendedHeader>>, e: Seq<ExtendedHeader>, x: int)
+    ensures cnt_sp(s.push(e), x) == cnt_sp(s, x) + (if span_covers(e, x) { 1int } else { 0int })
+{
+    assert(s.push(e).drop_last() =~= s);
+}
+pub proof fn lemma_sp_view_push(r: Seq<Vec<ExtendedHeader>>, v: Vec<ExtendedHeader>)
+    ensures sp_view(r.push(v)) =~= sp_view(r).push(v@)
+{}
+pub proof fn lemma_all_req_ok_remove(s: Seq<(u64, u64)>, k: int)
+    requires all_req_ok(s), 0 <= k < s.len()
+    ensures all_req_ok(s.remove(k))
+{
+    let t = s.remove(k);
+    assert forall|j: int| 0 <= j < t.len() implies req_ok((#[trigger] t[j]).0, t[j].1) by {
+        if j < k { assert(t[j] == s[j]); } else { assert(t[j] == s[j + 1]); }
+    }
+}
+pub proof fn lemma_all_req_ok_push(s: Seq<(u64, u64)>, e: (u64, u64))
+    requires all_req_ok(s), req_ok(e.0, e.1)
+    ensures all_req_ok(s.push(e))
+{
+    let t = s.push(e);
+    assert forall|j: int| 0 <= j < t.len() implies req_ok((#[trigger] t[j]).0, t[j].1) by {
+        if j < s.len() { assert(t[j] == s[j]); }
+    }
+}
+// the start of a fresh session: everything is still to be fetched
+pub proof fn lemma_sess_init(r: BlockRange)
+    requires r_valid(r)
+    ensures sess_inv(Some(r), Seq::empty(), Seq::empty(), r@.start as int, r@.end as int)
+{
+    reveal(sess_inv);
+    assert(all_req_ok(Seq::<(u64, u64)>::empty()));
+}
+// a batch is cut from the top of what is to be fetched and becomes a request in flight
+pub proof fn lemma_step_take(f0: Option<BlockRange>, f1: Option<BlockRange>, out: Seq<(u64, u64)>, sp: Seq<Seq<ExtendedHeader>>, lo: int, hi: int, lim: u64)
+    requires
+        sess_inv(f0, out, sp, lo, hi), f0.is_some(), 1 <= lim <= MAX_AMOUNT_PER_REQ, is_rest(f0.unwrap(), lim, f1),
+    ensures
+        sess_inv(f1, out.push((take_start(f0.unwrap(), lim) as u64, (f0.unwrap()@.end - take_start(f0.unwrap(), lim) + 1) as u64)), sp, lo, hi),
+        req_ok(take_start(f0.unwrap(), lim) as u64, (f0.unwrap()@.end - take_start(f0.unwrap(), lim) + 1) as u64),
+{
+    reveal(sess_inv);
+    let o = f0.unwrap();
+    let e = (take_start(o, lim) as u64, (o@.end - take_start(o, lim) + 1) as u64);
+    assert(r_valid(o));
+    assert(req_ok(e.0, e.1));
+    lemma_all_req_ok_push(out, e);
+    assert forall|x: int| in_fetch(f1, x) + #[trigger] cnt_out(out.push(e), x) + cnt_sp(sp, x) == in_range(lo, hi, x) by {
+        lemma_cnt_out_push(out, e, x);
+        assert(in_fetch(f0, x) + cnt_out(out, x) + cnt_sp(sp, x) == in_range(lo, hi, x));
+    }
+}
+// a request leaves the in-flight set and comes back as: a span (prefix of length n) plus a request for the remainder
+pub proof fn lemma_step_resp(f: Option<BlockRange>, out0: Seq<(u64, u64)>, k: int, sp0: Seq<Seq<ExtendedHeader>>, v: Seq<ExtendedHeader>, lo: int, hi: int)
+    requires
+        sess_inv(f, out0, sp0, lo, hi), 0 <= k < out0.len(), prefix_resp(out0[k].0, out0[k].1, v),
+    ensures
+        // nothing received: the same request goes out again
+        v.len() == 0 ==> sess_inv(f, out0.remove(k).push(out0[k]), sp0, lo, hi),
+        // everything received
+        v.len() == out0[k].1 ==> sess_inv(f, out0.remove(k), sp0.push(v), lo, hi),
+        // a proper prefix received: the remainder is requested
+        0 < v.len() < out0[k].1 ==> sess_inv(f, out0.remove(k).push(((out0[k].0 + v.len()) as u64, (out0[k].1 - v.len()) as u64)), sp0.push(v), lo, hi)
+            && req_ok((out0[k].0 + v.len()) as u64, (out0[k].1 - v.len()) as u64),
+        all_req_ok(out0.remove(k)), req_ok(out0[k].0, out0[k].1),
+{
+    reveal(sess_inv);
+    let (h, a) = out0[k];
+    let out1 = out0.remove(k);
+    assert(req_ok(out0[k].0, out0[k].1));
+    lemma_all_req_ok_remove(out0, k);
+    if v.len() == 0 {
+        lemma_all_req_ok_push(out1, (h, a));
+        assert forall|x: int| in_fetch(f, x) + #[trigger] cnt_out(out1.push((h, a)), x) + cnt_sp(sp0, x) == in_range(lo, hi, x) by {
+            lemma_cnt_out_remove(out0, k, x); lemma_cnt_out_push(out1, (h, a), x);
+            assert(in_fetch(f, x) + cnt_out(out0, x) + cnt_sp(sp0, x) == in_range(lo, hi, x));
+        }
+    } else {
+        assert(v[0].h == h);
+        assert(span_ok(v));
+        let sp1 = sp0.push(v);
+        assert forall|i: int| 0 <= i < sp1.len() implies span_ok(#[trigger] sp1[i]) by { if i < sp0.len() { assert(sp1[i] == sp0[i]); } }
+        if v.len() == a {
+            assert forall|x: int| in_fetch(f, x) + #[trigger] cnt_out(out1, x) + cnt_sp(sp1, x) == in_range(lo, hi, x) by {
+                lemma_cnt_out_remove(out0, k, x); lemma_cnt_sp_push(sp0, v, x);
+                assert(in_fetch(f, x) + cnt_out(out0, x) + cnt_sp(sp0, x) == in_range(lo, hi, x));
+            }
+        } else {
+            let e = ((h + v.len()) as u64, (a - v.len()) as u64);
+            assert(req_ok(e.0, e.1));
+            lemma_all_req_ok_push(out1, e);
+            assert forall|x: int| in_fetch(f, x) + #[trigger] cnt_out(out1.push(e), x) + cnt_sp(sp1, x) == in_range(lo, hi, x) by {
+                lemma_cnt_out_remove(out0, k, x); lemma_cnt_out_push(out1, e, x); lemma_cnt_sp_push(sp0, v, x);
+                assert(in_fetch(f, x) + cnt_out(out0, x) + cnt_sp(sp0, x) == in_range(lo, hi, x));
+            }
+        }
+    }
+}
+// a header-ex error: the same request goes out again
+pub proof fn lemma_step_err(f: Option<BlockRange>, out0: Seq<(u64, u64)>, k: int, sp0: Seq<Seq<ExtendedHeader>>, lo: int, hi: int)
+    requires sess_inv(f, out0, sp0, lo, hi), 0 <= k < out0.len(),
+    ensures sess_inv(f, out0.remove(k).push(out0[k]), sp0, lo, hi), all_req_ok(out0.remove(k)), req_ok(out0[k].0, out0[k].1),
+{
+    reveal(sess_inv);
+    let out1 = out0.remove(k);
+    assert(req_ok(out0[k].0, out0[k].1));
+    lemma_all_req_ok_remove(out0, k);
+    lemma_all_req_ok_push(out1, out0[k]);
+    assert forall|x: int| in_fetch(f, x) + #[trigger] cnt_out(out1.push(out0[k]), x) + cnt_sp(sp0, x) == in_range(lo, hi, x) by {
+        lemma_cnt_out_remove(out0, k, x); lemma_cnt_out_push(out1, out0[k], x);
+        assert(in_fetch(f, x) + cnt_out(out0, x) + cnt_sp(sp0, x) == in_range(lo, hi, x));
+    }
+}
+
+// ---- the end of the session: only spans are left ----
+pub proof fn lemma_cnt_sp_facts(s: Seq<Seq<ExtendedHeader>>, x: int)
+    ensures
+        cnt_sp(s, x) >= 0,
+        cnt_sp(s, x) >= 1 ==> exists|i: int| 0 <= i < s.len() && span_covers(#[trigger] s[i], x),
+        forall|i: int| 0 <= i < s.len() && span_covers(#[trigger] s[i], x) ==> cnt_sp(s, x) >= 1,
+        forall|i: int, j: int| 0 <= i < j < s.len() && span_covers(#[trigger] s[i], x) && span_covers(#[trigger] s[j], x) ==> cnt_sp(s, x) >= 2,
+    decreases s.len()
+{
+    if s.len() > 0 {
+        let t = s.drop_last();
+        lemma_cnt_sp_facts(t, x);
+        if cnt_sp(s, x) >= 1 {
+            if span_covers(s.last(), x) { assert(span_covers(s[s.len() - 1], x)); }
+            else { let i = choose|i: int| 0 <= i < t.len() && span_covers(#[trigger] t[i], x); assert(t[i] == s[i]); }
+        }
+        assert forall|i: int| 0 <= i < s.len() && span_covers(#[trigger] s[i], x) implies cnt_sp(s, x) >= 1 by {
+            if i < t.len() { assert(t[i] == s[i]); }
+        }
+        assert forall|i: int, j: int| 0 <= i < j < s.len() && span_covers(#[trigger] s[i], x) && span_covers(#[trigger] s[j], x) implies cnt_sp(s, x) >= 2 by {
+            assert(t[i] == s[i]);
+            if j < t.len() { assert(t[j] == s[j]); }
+        }
+    }
+}
+// what the final lemma needs of a list of spans: exact tiling of [a, hi], stated pointwise
+pub open spec fn covered(b: Seq<Seq<ExtendedHeader>>, x: int) -> bool { exists|i: int| 0 <= i < b.len() && #[trigger] span_covers(b[i], x) }
+pub open spec fn tiles(b: Seq<Seq<ExtendedHeader>>, a: int, hi: int) -> bool {
+    &&& forall|i: int| 0 <= i < b.len() ==> span_ok(#[trigger] b[i])
+    &&& forall|i: int, x: int| 0 <= i < b.len() && #[trigger] span_covers(b[i], x) ==> a <= x <= hi
+    &&& forall|x: int| a <= x <= hi ==> #[trigger] covered(b, x)
+    &&& forall|i: int, j: int, x: int| 0 <= i < b.len() && 0 <= j < b.len() && #[trigger] span_covers(b[i], x) && #[trigger] span_covers(b[j], x) ==> i == j
+}
+pub proof fn lemma_sess_final(sp: Seq<Seq<ExtendedHeader>>, lo: int, hi: int)
+    requires sess_inv(None, Seq::empty(), sp, lo, hi)
+    ensures tiles(sp, lo, hi)
+{
+    reveal(sess_inv);
+    assert forall|x: int| cnt_sp(sp, x) == in_range(lo, hi, x) by {
+        assert(in_fetch(None::<BlockRange>, x) + cnt_out(Seq::<(u64, u64)>::empty(), x) + cnt_sp(sp, x) == in_range(lo, hi, x));
+    }
+    assert forall|i: int, x: int| 0 <= i < sp.len() && #[trigger] span_covers(sp[i], x) implies lo <= x <= hi by { lemma_cnt_sp_facts(sp, x); }
+    assert forall|x: int| lo <= x <= hi implies #[trigger] covered(sp, x) by { lemma_cnt_sp_facts(sp, x); }
+    assert forall|i: int, j: int, x: int| 0 <= i < sp.len() && 0 <= j < sp.len() && #[trigger] span_covers(sp[i], x) && #[trigger] span_covers(sp[j], x) implies i == j by {
+        lemma_cnt_sp_facts(sp, x);
+        if i < j { } else if j < i { }
+    }
+}
+pub proof fn lemma_tiles_perm(a: Seq<Seq<ExtendedHeader>>, b: Seq<Seq<ExtendedHeader>>, p: Seq<int>, q: Seq<int>, lo: int, hi: int)
+    requires tiles(a, lo, hi), perm_pair(a, b, p, q)
+    ensures tiles(b, lo, hi)
+{
+    assert forall|i: int| 0 <= i < b.len() implies span_ok(#[trigger] b[i]) by { assert(b[i] == a[p[i]]); }
+    assert forall|i: int, x: int| 0 <= i < b.len() && #[trigger] span_covers(b[i], x) implies lo <= x <= hi by { assert(b[i] == a[p[i]]); assert(span_covers(a[p[i]], x)); }
+    assert forall|x: int| lo <= x <= hi implies #[trigger] covered(b, x) by {
+        assert(covered(a, x));
+        let j = choose|j: int| 0 <= j < a.len() && #[trigger] span_covers(a[j], x);
+        assert(b[q[j]] == a[p[q[j]]]);
+        assert(span_covers(b[q[j]], x));
+    }
+    assert forall|i: int, j: int, x: int| 0 <= i < b.len() && 0 <= j < b.len() && #[trigger] span_covers(b[i], x) && #[trigger] span_covers(b[j], x) implies i == j by {
+        assert(b[i] == a[p[i]]); assert(b[j] == a[p[j]]);
+        assert(span_covers(a[p[i]], x) && span_covers(a[p[j]], x));
+        assert(p[i] == p[j]);
+        assert(q[p[i]] == i && q[p[j]] == j);
+    }
+}
+// spans sorted by their first height that tile [a, hi] concatenate to exactly a, a+1, ..., hi
+pub proof fn lemma_tile_flat(b: Seq<Seq<ExtendedHeader>>, a: int, hi: int)
+    requires tiles(b, a, hi), sorted_by_first(b), a <= hi + 1
+    ensures flat(b).len() == hi - a + 1, forall|k: int| 0 <= k < flat(b).len() ==> (#[trigger] flat(b)[k]).h == a + k
+    decreases b.len()
+{
+    if b.len() == 0 {
+        if a <= hi { assert(covered(b, a)); let i = choose|i: int| 0 <= i < b.len() && #[trigger] span_covers(b[i], a); }
+    } else {
+        let n = b.len() as int;
+        let last = b[n - 1];
+        let t = b.drop_last();
+        assert(span_ok(last));
+        let fl = last[0].h as int;
+        assert(span_covers(last, fl));
+        assert(a <= fl <= hi);
+        // the last span ends at hi
+        assert(covered(b, hi));
+        let ih = choose|i: int| 0 <= i < b.len() && #[trigger] span_covers(b[i], hi);
+        if ih != n - 1 {
+            assert(b[ih][0].h <= b[n - 1][0].h);
+            assert(span_covers(b[ih], fl));
+        }
+        assert(span_covers(last, hi));
+        assert(fl + last.len() - 1 >= hi);
+        if fl + last.len() - 1 > hi { assert(span_covers(last, hi + 1)); }
+        assert(fl + last.len() - 1 == hi);
+        // the spans before it tile [a, fl - 1]
+        assert forall|i: int| 0 <= i < t.len() implies span_ok(#[trigger] t[i]) by { assert(t[i] == b[i]); }
+        assert forall|i: int, x: int| 0 <= i < t.len() && #[trigger] span_covers(t[i], x) implies a <= x <= fl - 1 by {
+            assert(t[i] == b[i]);
+            assert(span_covers(b[i], x));
+            if x >= fl {
+                assert(b[i][0].h <= b[n - 1][0].h);
+                assert(span_ok(b[i]));
+                assert(span_covers(b[i], fl));
+            }
+        }
+        assert forall|x: int| a <= x <= fl - 1 implies #[trigger] covered(t, x) by {
+            assert(covered(b, x));
+            let i = choose|i: int| 0 <= i < b.len() && #[trigger] span_covers(b[i], x);
+            assert(i != n - 1);
+            assert(t[i] == b[i]);
+        }
+        assert forall|i: int, j: int, x: int| 0 <= i < t.len() && 0 <= j < t.len() && #[trigger] span_covers(t[i], x) && #[trigger] span_covers(t[j], x) implies i == j by {
+            assert(t[i] == b[i]); assert(t[j] == b[j]);
+            assert(span_covers(b[i], x) && span_covers(b[j], x));
+        }
+        assert forall|i: int, j: int| 0 <= i < j < t.len() implies (#[trigger] t[i])[0].h <= (#[trigger] t[j])[0].h by { assert(t[i] == b[i]); assert(t[j] == b[j]); }
+        lemma_tile_flat(t, a, fl - 1);
+        let f0 = flat(t);
+        assert(flat(b) == f0 + last);
+        assert forall|k: int| 0 <= k < flat(b).len() implies (#[trigger] flat(b)[k]).h == a + k by {
+            if k < f0.len() { assert(flat(b)[k] == f0[k]); } else { assert(flat(b)[k] == last[k - f0.len()]); }
+        }
+    }
+}
+
 impl HeaderSession {
     // what is still to be requested is a valid range, and the batch size is within the protocol's bounds
     pub open spec fn inv(&self) -> bool {
@@ -139,30 +452,77 @@ impl HeaderSession {
     // termination of the receive loop is NOT claimed (peers may fail forever: liveness)
     #[verifier::exec_allows_no_decreases_clause]
     pub(crate) async fn run(&mut self) -> (r: PResult<Vec<ExtendedHeader>>)
-        requires old(self).inv(), all_req_ok(old(self).tasks.outstanding@)
-        ensures final(self).inv(), all_req_ok(final(self).tasks.outstanding@),
+        requires
+            // a fresh session (HeaderSession::new): the whole range is still to be fetched, nothing is in flight
+            old(self).inv(), old(self).to_fetch.is_some(), old(self).tasks.outstanding@.len() == 0,
+        ensures
+            // C26: a session that completes returns every height of the range exactly once, in ascending order
+            r.is_ok() ==> {
+                let range = old(self).to_fetch.unwrap();
+                &&& r.unwrap()@.len() == r_len(range)
+                &&& forall|k: int| 0 <= k < r.unwrap()@.len() ==> (#[trigger] r.unwrap()@[k]).h == range@.start + k
+            },
 //@ascribe "let mut responses = Vec::new();" => "let mut responses: Vec<Vec<ExtendedHeader>> = Vec::new();"
+//@hint after "let mut responses = Vec::new();"
+        let ghost lo = self.to_fetch.unwrap()@.start as int; let ghost hi = self.to_fetch.unwrap()@.end as int;
+        proof {
+            lemma_sess_init(self.to_fetch.unwrap());
+            assert(sp_view(responses@) =~= Seq::<Seq<ExtendedHeader>>::empty());
+            assert(self.tasks.outstanding@ =~= Seq::<(u64, u64)>::empty());
+        }
 //@for 1
 //@loop 1
-            invariant self.inv(), all_req_ok(self.tasks.outstanding@), responses@.len() == 0,
+            invariant
+                self.inv(), responses@.len() == 0, __i1 <= __i1_end,
+                lo == old(self).to_fetch.unwrap()@.start, hi == old(self).to_fetch.unwrap()@.end, lo <= hi,
+                sess_inv(self.to_fetch, self.tasks.outstanding@, sp_view(responses@), lo, hi),
+                __i1 > 0 ==> (self.to_fetch.is_some() ==> self.tasks.outstanding@.len() > 0),
             decreases __i1_end - __i1
+//@loopstart 1
+            let ghost f0 = self.to_fetch; let ghost o0 = self.tasks.outstanding@;
+//@loopend 1
+            proof { if f0.is_some() { lemma_step_take(f0, self.to_fetch, o0, sp_view(responses@), lo, hi, self.batch_size); } }
 //@sub E9 "while let Some((height, requested_amount, res)) = self.tasks.next().await {"
         loop
             invariant
-                self.inv(), all_req_ok(self.tasks.outstanding@),
-                forall|i: int| 0 <= i < responses@.len() ==> (#[trigger] responses@[i])@.len() > 0,
+                self.inv(),
+                lo == old(self).to_fetch.unwrap()@.start, hi == old(self).to_fetch.unwrap()@.end, lo <= hi,
+                sess_inv(self.to_fetch, self.tasks.outstanding@, sp_view(responses@), lo, hi),
+                // something is in flight as long as something is left to fetch
+                self.to_fetch.is_some() ==> self.tasks.outstanding@.len() > 0,
+            ensures self.tasks.outstanding@.len() == 0
         {
-            let ghost before = self.tasks.outstanding@;
+            let ghost before = self.tasks.outstanding@; let ghost f0 = self.to_fetch; let ghost r0 = responses@;
             let __next = self.tasks.next().await;
             let Some((height, requested_amount, res)) = __next else { break; };
-            proof {
-                let k = choose|k: int| 0 <= k < before.len() && #[trigger] before[k] == (height, requested_amount) && self.tasks.outstanding@ == before.remove(k);
-                assert(req_ok(before[k].0, before[k].1));
-                assert forall|j: int| 0 <= j < self.tasks.outstanding@.len() implies req_ok((#[trigger] self.tasks.outstanding@[j]).0, self.tasks.outstanding@[j].1) by {
-                    if j < k { assert(self.tasks.outstanding@[j] == before[j]); } else { assert(self.tasks.outstanding@[j] == before[j + 1]); }
-                }
-            }
+            let ghost k = choose|k: int| 0 <= k < before.len() && #[trigger] before[k] == (height, requested_amount) && self.tasks.outstanding@ == before.remove(k)
+                && (res.is_ok() ==> prefix_resp(height, requested_amount, res.unwrap()@));
+//@hint before "let headers_len = headers.len() as u64;"
+                    let ghost hv = headers@; let ghost f1 = self.to_fetch; let ghost o1 = self.tasks.outstanding@;
+                    proof { lemma_step_resp(f0, before, k, sp_view(r0), hv, lo, hi); }
+//@hint after "responses.push(headers);"
+                        proof { lemma_sp_view_push(r0, headers); }
+//@hint after "self.send_next_request().await;" 2
+                        proof { if f1.is_some() { lemma_step_take(f1, self.to_fetch, o1, sp_view(responses@), lo, hi, self.batch_size); } }
+//@hint before "self.send_request(height, requested_amount).await;"
+                    proof { lemma_step_err(f0, before, k, sp_view(r0), lo, hi); }
+//@afterloop 2
+        proof {
+            assert(self.tasks.outstanding@ =~= Seq::<(u64, u64)>::empty());
+            lemma_sess_final(sp_view(responses@), lo, hi);
+            assert forall|i: int| 0 <= i < responses@.len() implies (#[trigger] responses@[i])@.len() > 0 by { assert(span_ok(sp_view(responses@)[i])); }
+        }
+        let ghost unsorted = sp_view(responses@);
 //@sub E9 "responses.sort_unstable_by_key(|span| { span.first() .expect(\"empty spans aren't added in receiving loop\") .height() });" => "vx_sort_spans_by_first_height(&mut responses);"
+//@hint before "Ok(responses.into_iter().flatten().collect())"
+        proof {
+            // (if the spans were not reordered at all, the identity is the permutation)
+            if unsorted != sp_view(responses@) {
+                let (p, q) = choose|p: Seq<int>, q: Seq<int>| perm_pair(unsorted, sp_view(responses@), p, q);
+                lemma_tiles_perm(unsorted, sp_view(responses@), p, q, lo, hi);
+            }
+            lemma_tile_flat(sp_view(responses@), lo, hi);
+        }
 //@sub E9 "responses.into_iter().flatten().collect()" => "vx_flatten(responses)"
 //@end
 
@@ -227,6 +587,8 @@ impl P2p {
         ensures
             // C27: whatever is returned is the verified chain directly after a valid `from`
             r.is_ok() ==> header_valid(*from) && adjacent_range_ok(*from, r.unwrap()@),
+            // ... and it is exactly the `amount` heights following `from`, in order (C26's contract of `run`)
+            r.is_ok() ==> r.unwrap()@.len() == amount && forall|k: int| 0 <= k < r.unwrap()@.len() ==> (#[trigger] r.unwrap()@[k]).h == from.h + 1 + k,
 //@closure "|_|" 1 => "|_e: TypesError| -> (o: HeaderExError) ensures o is InvalidRequest"
 //@closure "|_|" 2 => "|_e: TypesError| -> (o: HeaderExError) ensures o is InvalidResponse"
 //@hint before "let mut session = HeaderSession::new(range, self.cmd_tx.clone());"
@@ -241,6 +603,7 @@ impl P2p {
         requires !range@.exhausted, range@.start >= 1,
         ensures
             r.is_ok() ==> r.unwrap()@.len() > 0 && adjacent_range_ok(r.unwrap()@[0], r.unwrap()@.subrange(1, r.unwrap()@.len() as int)),
+            r.is_ok() ==> r.unwrap()@.len() == r_len(range) && forall|k: int| 0 <= k < r.unwrap()@.len() ==> (#[trigger] r.unwrap()@[k]).h == range@.start + k,
 //@closure "|_|" => "|_e: TypesError| -> (o: HeaderExError) ensures o is InvalidResponse"
 //@end
 }
